@@ -289,6 +289,30 @@ def main(ctx):
                           f'(endpoint under test: {role})',
                           {'module': 'Wire', 'asym': str(asym), 'role': role})
             ctx.count(('asym', role, str(asym)), nontrivial=True)
+    # re-keying against an independent peer (raw peer): one that repeats the
+    # kex-strict marker in every KEXINIT, as asyncssh itself does, and one
+    # that sends it in its first KEXINIT only, which the specification
+    # allows ("MUST be ignored if present in subsequent KEXINIT"): strict
+    # mode is decided by the first exchange; sequence numbers keep being
+    # reset at every NEWKEYS and every payload arrives once, in order
+    pl = [bytes([(7 * i + j) % 251 for j in range(700)]) for i in range(12)]
+    for role in 'sc':
+        for first_only in (False, True):
+            for rk in ((2048,) if quick else (1024, 2048, 5000)):
+                r = T.run_asym_session(role, {}, pl, kw=dict(rekey_bytes=rk),
+                                       raw_kw=dict(strict_first_only=first_only))
+                nkex = sum(1 for t, *_ in r['rec'].app['c'] if t == 20)
+                ctx.require(r['outcome'] != 'ok' or nkex >= 3,
+                            f're-key sessions did not re-key ({nkex} KEXINIT)')
+                judge_session(ctx, r, pl,
+                              f're-key every {rk} bytes against a peer that '
+                              f'{"omits" if first_only else "repeats"} the '
+                              f'strict-kex marker when re-keying (endpoint '
+                              f'under test: {role})',
+                              {'module': 'Wire', 'rekey': rk, 'role': role,
+                               'marker_first_only': first_only})
+                ctx.count(('rekey-raw', role, first_only, rk),
+                          nontrivial=True)
     # sequence numbers near 2^16 and 2^32: wrap and MAC input width
     for enc, mac in (('aes128-ctr', 'hmac-sha2-256'),
                      ('aes128-cbc', 'hmac-sha1-etm@openssh.com'),
